@@ -556,6 +556,21 @@ pub fn gen_src(rng: &mut Rng) -> SrcCase {
                 };
                 return SrcCase { src: format!("far halt\n{}{} far\n", pad, m), kind: "label-distance" };
             }
+            if rng.chance(1, 6) {
+                // the same reference twice (or three times) in a row: the first at the very limit of
+                // its field, the next one word too far — equal statements, different verdicts
+                let d = (lim - 3 + rng.range(-1, 1)).max(0);
+                let reps = 2 + rng.below(2) as usize;
+                let refs = format!("{} far\n", m).repeat(reps);
+                if forward {
+                    // last of the references fits iff D <= lim-1
+                    let d = (lim - 1 + rng.range(0, 2)).max(0);
+                    s.push_str(&format!("{}.blkw #{}\nfar halt\n", refs, d));
+                } else {
+                    s.push_str(&format!("far add r0 r0 #0\nhalt\n.blkw #{}\n{}halt\n", d, refs));
+                }
+                return SrcCase { src: s, kind: "label-distance" };
+            }
             if forward {
                 // d = D ; fits iff D <= lim-1
                 let d = (lim - 1 + delta).max(0);
